@@ -446,6 +446,8 @@ where
 
         let name;
         let target_state;
+        // The offset in `line` at which the rule's name (after any target state) starts.
+        let name_off;
         let orig_name = if line[rspace + 1..].starts_with('<') {
             match line[rspace + 1..].find('>') {
                 Some(l) => {
@@ -454,18 +456,20 @@ where
                         self.parse_start_state_ops(&line[rspace + 2..rspace + 1 + l]);
                     let state = self.get_start_state_by_name(i + rspace + 1, state_name)?;
                     target_state = Some((state.id, operation));
-                    &line[rspace + 1 + l + 1..]
+                    name_off = rspace + 1 + l + 1;
+                    &line[name_off..]
                 }
                 None => return Err(self.mk_error(LexErrorKind::InvalidStartState, rspace + i)),
             }
         } else {
             target_state = None;
-            &line[rspace + 1..]
+            name_off = rspace + 1;
+            &line[name_off..]
         };
         let name_span;
         let dupe = if orig_name == ";" || orig_name == r#""""# || orig_name == "''" {
             name = None;
-            let pos = i + rspace + 1;
+            let pos = i + name_off;
             name_span = Span::new(pos, pos);
             false
         } else {
@@ -473,10 +477,10 @@ where
                 || !((orig_name.starts_with('\'') && orig_name.ends_with('\''))
                     || (orig_name.starts_with('\"') && orig_name.ends_with('"')))
             {
-                return Err(self.mk_error(LexErrorKind::InvalidName, i + rspace + 1));
+                return Err(self.mk_error(LexErrorKind::InvalidName, i + name_off));
             }
             name = Some(orig_name[1..orig_name.len() - 1].to_string());
-            name_span = Span::new(i + rspace + 2, i + rspace + orig_name.len());
+            name_span = Span::new(i + name_off + 1, i + name_off + orig_name.len() - 1);
             self.rules.iter().any(|r| {
                 let dupe = r.name().is_some_and(|n| n == name.as_ref().unwrap());
                 if dupe {
